@@ -26,6 +26,8 @@ def pyval(v: List[Any]) -> Any:
         return [pyval(e) for e in x]
     if t == "t":
         return pd.Timestamp("2020-01-01")
+    if t == "d":
+        return pd.Timedelta(days=x)
     raise ValueError(v)
 
 
@@ -42,6 +44,8 @@ def tag(x: Any) -> List[Any]:
         return ["f", int(x)]
     if isinstance(x, str):
         return ["s", x]
+    if isinstance(x, pd.Timedelta):
+        return ["d", x.days] if x == pd.Timedelta(days=x.days) else ["other", str(x)]
     if isinstance(x, pd.Timestamp):
         return ["t", 0] if x == pd.Timestamp("2020-01-01") else ["other", str(x)]
     if isinstance(x, (list, tuple, set, frozenset)):
